@@ -38,7 +38,7 @@ func (tok Token) String() (s string) {
 // 1) len of is token literal, if token is an operator.
 // 2) 0 for else.
 func (tok Token) Len() int {
-	if tok > ' ' && tok <= Token(len(tokens)) {
+	if tok > ' ' && tok < Token(len(tokens)) {
 		return len(tokens[tok])
 	}
 	return 0
